@@ -68,10 +68,20 @@ pub fn build_game(root: &str, moves: &[String]) -> Result<Game, String> {
 /// `search::get_best_move_until_stop` (the same function `uci.rs` and `autoplay.rs` call).
 fn run_items(items: Vec<DItem>) -> Result<(), String> {
     let mut table: TranspositionTable = TranspositionTable::with_capacity_and_hasher(1024, BuildNoHashHasher::default());
+    let mut prev: (String, Vec<String>) = (String::new(), vec![]);
     for (k, it) in items.iter().enumerate() {
         if it.fresh {
             table.clear();
         }
+        let mut it = it.clone();
+        if let Some(d) = &it.descend {
+            if !prev.0.is_empty() {
+                it.root = prev.0.clone();
+                it.moves = descend(&prev.0, &prev.1, d.plies, d.pick, &table);
+            }
+        }
+        prev = (it.root.clone(), it.moves.clone());
+        let it = &it;
         let game = match build_game(&it.root, &it.moves) {
             Ok(g) => g,
             Err(e) => {
@@ -82,7 +92,7 @@ fn run_items(items: Vec<DItem>) -> Result<(), String> {
         if let Some(sw) = &it.sweep {
             // reference run: how many polls does the unstopped search make, and where are its iteration boundaries
             let mut t = table.clone();
-            let (p, bounds) = one_search(k, &game, &mut t, it.depth, None);
+            let (p, bounds) = one_search(k, &game, &mut t, it.depth, None, &it.moves);
             let mut ks: Vec<u64> = vec![];
             if p <= sw.all_upto {
                 ks.extend(0..=p);
@@ -105,23 +115,23 @@ fn run_items(items: Vec<DItem>) -> Result<(), String> {
             }
             for kk in ks {
                 let mut t = table.clone();
-                one_search(k, &game, &mut t, it.depth, Some(kk));
+                one_search(k, &game, &mut t, it.depth, Some(kk), &it.moves);
             }
         } else if it.isolated {
             let mut t = table.clone();
-            one_search(k, &game, &mut t, it.depth, it.stop_at);
+            one_search(k, &game, &mut t, it.depth, it.stop_at, &it.moves);
         } else {
-            one_search(k, &game, &mut table, it.depth, it.stop_at);
+            one_search(k, &game, &mut table, it.depth, it.stop_at, &it.moves);
         }
     }
     Ok(())
 }
 
 /// returns (polls made, poll counts at which `info depth` lines were printed)
-fn one_search(k: usize, game: &Game, table: &mut TranspositionTable, depth: Option<u8>, stop_at: Option<u64>) -> (u64, Vec<u64>) {
+fn one_search(k: usize, game: &Game, table: &mut TranspositionTable, depth: Option<u8>, stop_at: Option<u64>, moves: &[String]) -> (u64, Vec<u64>) {
     match stop_at {
-        Some(s) => sched::note(format!("item {} begin stop={}", k, s)),
-        None => sched::note(format!("item {} begin stop=-", k)),
+        Some(s) => sched::note(format!("item {} begin stop={} moves={}", k, s, moves.join(","))),
+        None => sched::note(format!("item {} begin stop=- moves={}", k, moves.join(","))),
     }
     sched::item_begin(stop_at);
     let flag = AtomicBool::new(true);
@@ -133,4 +143,53 @@ fn one_search(k: usize, game: &Game, table: &mut TranspositionTable, depth: Opti
     let (_, polls) = sched::stats_now();
     sched::note(format!("item {} end polls={}", k, polls));
     (polls, sched::item_info_marks())
+}
+
+/// Table-guided descent: among the positions reachable from (root, moves) by 1..=plies legal moves (legal by the
+/// reference model), those whose engine hash is a key of the table; one of them chosen by `pick`. Falls back to a
+/// seeded one-ply extension when the table holds none of them.
+fn descend(root: &str, moves: &[String], plies: u8, pick: u64, table: &TranspositionTable) -> Vec<String> {
+    let Some(mut pos) = crate::gui::root_pos(root) else { return moves.to_vec() };
+    for m in moves {
+        if !pos.play(m) {
+            return moves.to_vec();
+        }
+    }
+    let mut frontier: Vec<(crate::model::Pos, Vec<String>)> = vec![(pos.clone(), moves.to_vec())];
+    let mut present: Vec<Vec<String>> = vec![];
+    let mut seed = pick;
+    for ply in 0..plies {
+        let mut next = vec![];
+        for (p, line) in &frontier {
+            for m in p.legal_moves() {
+                let mut q = p.clone();
+                q.play(&m);
+                let mut l2 = line.clone();
+                l2.push(m);
+                if let Ok(g) = build_game(root, &l2) {
+                    if table.contains_key(&g.hash()) {
+                        present.push(l2.clone());
+                    }
+                }
+                next.push((q, l2));
+            }
+        }
+        // keep the enumeration bounded: at most 40 lines are extended further
+        while next.len() > 40 {
+            let i = (sched::splitmix(&mut seed) % next.len() as u64) as usize;
+            next.swap_remove(i);
+        }
+        frontier = next;
+        let _ = ply;
+    }
+    if !present.is_empty() {
+        let i = (sched::splitmix(&mut seed) % present.len() as u64) as usize;
+        return present.swap_remove(i);
+    }
+    let l = pos.legal_moves();
+    let mut out = moves.to_vec();
+    if !l.is_empty() {
+        out.push(l[(sched::splitmix(&mut seed) % l.len() as u64) as usize].clone());
+    }
+    out
 }
